@@ -96,3 +96,15 @@ def build(u):
         # R-let-tail: name the value of the tail expression so that the closing proof can talk about it
         u.count('R-let-tail', f.rewrite(r'(?m)^(\s*)Ok\(builder\.into_sourcemap\(\)\)', r'\1let out__ = builder.into_sourcemap();\n\1Ok(out__)', expect=1))
     emit_method(u, T, r'SourceMapIndex\b', 'flatten', 'types::SourceMapIndex::flatten', prep=prep)
+
+    # flatten_and_rewrite: the composition of the two proved functions
+    u.raw('stub Path', '//@@ prelude path_stub\n//# assumes: std::path::Path is replaced by an opaque local type (only passed through to the filesystem option the contract excludes)\n#[verifier::external_body]\npub struct Path { _x: u8 }\n//@@ endprelude\n')
+    text, origin = u.get_item_text(T, r'(?m)^pub struct RewriteOptions\b', 'struct RewriteOptions')
+    text = re.sub(r'(?m)^\s*#\[[^\]]*\]\n', '', text)
+    text = re.sub(r'(?m)^\s*//[^\n]*\n', '', text)
+    u.count('R-attr')
+    u.emit_text('types::RewriteOptions', text, origin)
+    u.spec('strip.rs')
+    u.spec('rewrite_post.rs')
+    import_method(u, T, r'SourceMap\b', 'rewrite', 'types::SourceMap::rewrite', 'u12_rewrite.ctr', 'u12_rewrite')
+    emit_method(u, T, r'SourceMapIndex\b', 'flatten_and_rewrite', 'types::SourceMapIndex::flatten_and_rewrite')
